@@ -347,7 +347,8 @@ class ConnectionState:
     async def do_store(self, cmd: StoreCommand) -> _CommandRet:
         if not cmd.uid:
             self.selected.hide_expunged = True
-        if cmd.silent:
+        if cmd.silent and not self.selected.readonly:
+            # a store that is going to be refused silences nothing
             self.selected.silence(cmd.sequence_set, cmd.flag_set, cmd.mode)
         messages, updates = await self.session.update_flags(
             self.selected, cmd.sequence_set, cmd.flag_set, cmd.mode)
